@@ -133,4 +133,15 @@ theorem C06_incoh_empty (L : Ledger) (delays : List Rat) (o : IncohOut) (h : inc
 example : (incoh ⟨some 0, 1, 10⟩ [5/2, 1, -3/2]).toOption.map (fun o => (o.cropBefore, o.shifted, o.count))
     = some (2, [4, 3, 0], 6) := by decide +kernel
 
+set_option linter.unusedTactic false in
+set_option linter.unreachableTactic false in
+set_option linter.unnecessarySeqFocus false in
+/-- Tie to the source: the expression `DispersionMeasure.time_delay` assigns to `delay` (translated
+symbolically into `Gen.Disp.delayFormula` on every run) is the model's delay law for non-zero frequencies. -/
+theorem C06_source_formula :
+    ∀ DM f r : Rat, f ≠ 0 → r ≠ 0 → Gen.Disp.delayFormula (K * DM) f r = timeDelay DM f r := by
+  intro DM f r hf hr
+  simp only [Gen.Disp.delayFormula, timeDelay] <;>
+    first | rfl | ring1 | (field_simp; done) | (field_simp; ring1)
+
 end Pb.C06
